@@ -432,6 +432,10 @@ def run_empty_results(ctx, byte):
         "sum of cancelling": lambda: numpoly.sum(numpoly.polynomial([q0, -q0])),
         "clean all-zero": lambda: numpoly.polynomial_from_attributes([[1, 0], [0, 2]], [numpy.zeros(3, int), numpy.zeros(3, int)]),
         "retain=True all-zero": lambda: numpoly.polynomial_from_attributes([[1, 0]], [numpy.zeros(3, int)], retain_coefficients=True),
+        # exponent rows without any coefficient (D59): whatever comes back was written
+        "rows without coefficients": lambda: numpoly.polynomial_from_attributes([[1], [2]], []),
+        "rows without coefficients, float": lambda: numpoly.polynomial_from_attributes([[1, 0], [0, 3], [2, 2]], [], dtype=float),
+        "rows without coefficients, retained": lambda: numpoly.polynomial_from_attributes([[5]], [], ("q3",), retain_coefficients=True),
     }
     for name, f in cases.items():
         case = {"kind": "empty", "what": name}
